@@ -6,6 +6,10 @@
 //   then   : {"id":N,"mode":"eval"|"bool"|"num"|"str"|"chars"|"nodelist"|"match","doc":d,"ctx":i,"pos":p,"size":s,
 //             "text":"...","vars":{name:{"t":..,"v":..}},"ns":{prefix:uri}}
 #include "common.hpp"
+#include <sys/time.h>
+#include <signal.h>
+#include <unistd.h>
+#include <string.h>
 #include "proj.hpp"
 #include <cmath>
 #include <xalanc/PlatformSupport/DoubleSupport.hpp>
@@ -62,8 +66,17 @@ struct CharsCollector : public FormatterListener {
     void cdata(const XMLCh* const c, const size_type n) override { text.append(c, n); }
 };
 
+// a case that does not finish within its CPU budget is a hang: say so on stderr and leave (exit code 3); the driver reports the
+// first case without a result as a violation ("never returned")
+static void onHang(int) { static const char m[] = "HANG: evaluation exceeded its CPU budget (20 s)\n"; ssize_t r = write(2, m, sizeof m - 1); (void)r; _exit(3); }
+static void budget(int seconds) {
+    struct itimerval t; memset(&t, 0, sizeof t); t.it_value.tv_sec = seconds;
+    setitimer(ITIMER_VIRTUAL, &t, 0);
+}
+
 int main(int argc, char** argv) {
     if (argc < 2) { fprintf(stderr, "usage: %s cases.ndjson\n", argv[0]); return 2; }
+    signal(SIGVTALRM, onHang);
     setvbuf(stdout, nullptr, _IOLBF, 0);  // one result per line reaches the file even if a later case kills the process
     Platform platform;
     XalanTransformer::initialize();      // installs the XSLT function table as well
@@ -82,6 +95,7 @@ int main(int argc, char** argv) {
         MemoryManager& mm = XalanMemMgrs::getDefaultXercesMemMgr();
         for (size_t li = 1; li < lines.size(); ++li) {
             J c = parseJson(lines[li]);
+            budget(20);
             const long long id = c.num("id");
             const std::string mode = c.str("mode", "eval");
             std::string out = "{\"e\":\"Res\",\"id\":" + std::to_string(id);
